@@ -771,7 +771,31 @@ func lruMisc(c *Ctx, want map[string]bool) {
 					return true
 				}
 				v := identObj(info, rs.Value)
-				for _, call := range callsIn(rs.Body, false) {
+				// the call is a statement of the loop body itself and nothing
+				// before it can skip it (continue / break / return / goto)
+				var direct []*ast.CallExpr
+				for _, st := range rs.Body.List {
+					if es, k := st.(*ast.ExprStmt); k {
+						if call, k := es.X.(*ast.CallExpr); k {
+							direct = append(direct, call)
+							continue
+						}
+					}
+					skip := false
+					ast.Inspect(st, func(m ast.Node) bool {
+						switch m.(type) {
+						case *ast.BranchStmt, *ast.ReturnStmt:
+							skip = true
+						case *ast.FuncLit:
+							return false
+						}
+						return true
+					})
+					if skip {
+						break
+					}
+				}
+				for _, call := range direct {
 					if sel, k := call.Fun.(*ast.SelectorExpr); k && lruFieldOf(info, sel) == "onEvict" && len(call.Args) == 2 {
 						a0, k0 := call.Args[0].(*ast.SelectorExpr)
 						a1, k1 := call.Args[1].(*ast.SelectorExpr)
